@@ -87,6 +87,14 @@ fn vh_next_str() -> string
 fn vh_next_float() -> float
 #host
 fn vh_next_arr() -> array<int>
+#host
+fn vh_h0() -> int
+#host
+fn vh_h1(a: int) -> int
+#host
+fn vh_h2(a: int, b: string) -> string
+#host
+fn vh_h3(a: int, b: float, c: bool) -> int
 "#;
 
 #[derive(Clone, Debug)]
@@ -303,6 +311,39 @@ impl StdHost {
                     Vec::<i64>::new().to_vm(vm)
                 }
             },
+            // multi-argument host functions: arguments are popped last-first; what was received is
+            // recorded in `emits` (in declaration order) and the result is a function of the arguments
+            "vh_h0" => {
+                self.emits.push(Emit::Str("h0".into()));
+                match self.inputs.pop_front() {
+                    Some(Input::Int(x)) => x.to_vm(vm),
+                    _ => 100i64.to_vm(vm),
+                }
+            }
+            "vh_h1" => {
+                let a = i64::from_vm(vm);
+                self.emits.push(Emit::Str("h1".into()));
+                self.emits.push(Emit::Int(a));
+                a.wrapping_mul(10).wrapping_add(1).to_vm(vm);
+            }
+            "vh_h2" => {
+                let b = String::from_vm(vm);
+                let a = i64::from_vm(vm);
+                self.emits.push(Emit::Str("h2".into()));
+                self.emits.push(Emit::Int(a));
+                self.emits.push(Emit::Str(b.clone()));
+                format!("{b}<{a}>").to_vm(vm);
+            }
+            "vh_h3" => {
+                let c = bool::from_vm(vm);
+                let b = f64::from_vm(vm);
+                let a = i64::from_vm(vm);
+                self.emits.push(Emit::Str("h3".into()));
+                self.emits.push(Emit::Int(a));
+                self.emits.push(Emit::Float(b.to_bits()));
+                self.emits.push(Emit::Bool(c));
+                (a.wrapping_mul(2).wrapping_add(b as i64).wrapping_add(c as i64)).to_vm(vm);
+            }
             other => {
                 self.input_error = Some(format!("unknown host function {other}"));
             }
